@@ -15,9 +15,10 @@ THEOREMS = ["C17_index_bound_binary64", "C17_index_bound_model", "C17_block_is_p
 AXIOMS_ALLOWED = ["ClassicalDedekindReals.sig_forall_dec", "ClassicalDedekindReals.sig_not_dec",
                   "FunctionalExtensionality.functional_extensionality_dep", "Classical_Prop.classic"]
 TRUSTED_BASE = [
-    "hand-written model coq/Model/FYShuffle.v of src/fyshuffle.rs; the integer round-to-nearest-even of "
-    "fl(xsi*n) (rne_mul_floor) is tied to the code's f64 multiply by a per-run correspondence on (u, n) pairs "
-    "with n up to 2^53, and independently the bound is proved on Flocq's binary64 rounding",
+    "hand-written model coq/Model/FYShuffle.v of src/fyshuffle.rs; the integer round-to-nearest-even of fl(xsi*n) that the "
+    "model executes (rne_mul_floor) is proved equal to Flocq's binary64 round-to-nearest-even of the product for every "
+    "k < 2^52, n <= 2^53 (C17_model_rounding_is_binary64); that the machine's f64 multiply and `as usize` are that IEEE "
+    "operation is checked by a per-run correspondence on (u, n) pairs with n up to 2^53",
     "rand 0.9.5 Uniform<f64>::new(0.,1.) decodes a draw as (next_u64 >> 12) * 2^-52 (checked by the correspondence: "
     "the harness feeds raw 64-bit outputs through the real FYshuffle::next)",
     "harness/src/fy.rs (scripted RngCore)",
